@@ -33,6 +33,11 @@ import (
 type V struct {
 	Sig  string `json:"sig"`
 	What string `json:"what"`
+	// Case, when set, is saved as the replay scenario instead of the generated
+	// value (harnesses that explore many sub-cases per generated scenario use it
+	// to pin the one that failed, e.g. a schedule or a crash path). It must
+	// unmarshal into the sub-check's scenario type.
+	Case any `json:"-"`
 }
 
 func Vf(sig, format string, a ...any) V { return V{Sig: sig, What: fmt.Sprintf(format, a...)} }
@@ -474,6 +479,24 @@ func Run[S any](t *testing.T, r *Rec, sp Spec[S]) {
 		}
 	}
 
+	// Regression inputs: saved minimal cases of defects that were repaired. They
+	// must pass now; a violation here is reported like any other.
+	regress, _ := filepath.Glob(filepath.Join(r.Root, "replay", r.Prop, "regress", sp.Name+"--*.json"))
+	sort.Strings(regress)
+	for _, path := range regress {
+		_, sc, err := loadReplay[S](path)
+		if err != nil {
+			r.HarnessError("cannot load regression replay %s: %v", path, err)
+			continue
+		}
+		vs := r.Filter(exec(sc))
+		r.count(sp.Name, sc, info(sc))
+		for _, v := range vs {
+			r.addViolation(sp.Name, v, path)
+			t.Fail()
+		}
+	}
+
 	if sp.N <= 0 {
 		return
 	}
@@ -501,7 +524,14 @@ func Run[S any](t *testing.T, r *Rec, sp Spec[S]) {
 			r.HarnessError("sub-check %s failed without a property violation (generator or harness problem)", sp.Name)
 			return
 		}
-		p := r.saveReplay(sp.Name, last.sc, last.vs)
+		var saved any = last.sc
+		for _, v := range last.vs {
+			if v.Case != nil {
+				saved = v.Case
+				break
+			}
+		}
+		p := r.saveReplay(sp.Name, saved, last.vs)
 		for _, v := range last.vs {
 			r.addViolation(sp.Name, v, p)
 		}
